@@ -48,6 +48,17 @@ def records(optic):
     return [[[float(c[k, j]) for c in cols] for k in range(nrec)] for j in range(nr)]   # [ray][surface][8]
 
 
+def trace_records(optic, field, w, dist):
+    """the two traces Wavefront makes for one (field, wavelength): the pupil batch and the chief ray alone.
+    (EPD() inside _correct_tilt may run a paraxial trace after them, which clears the recorded real rays: they
+    are redone here.)  returns (chief records, [records per ray])"""
+    optic.trace(*field, w, None, dist)
+    rays = records(optic)
+    optic.trace_generic(*field, Px=0.0, Py=0.0, wavelength=w)
+    chief = records(optic)[0]
+    return chief, rays
+
+
 def run_wavefront(optic, field, w, dist):
     """Wavefront(...) on one field / wavelength plus the records of both traces it makes.
     returns dict(data, intensity, chief=[records], rays=[[records]...], pupil_z, xpl, epd, pos_last)"""
@@ -55,12 +66,7 @@ def run_wavefront(optic, field, w, dist):
     wf = Wavefront(optic, fields=[field], wavelengths=[w], num_rays=len(dist.x), distribution=dist)
     data = [float(v) for v in np.ravel(wf.data[0][0][0])]
     inten = [float(v) for v in np.ravel(wf.data[0][0][1])]
-    # the same two traces the constructor made (EPD() inside _correct_tilt may run a paraxial trace
-    # afterwards, which clears the recorded real rays)
-    optic.trace(*field, w, None, dist)
-    rays = records(optic)
-    wf._trace_chief_ray(field, w)
-    chief = records(optic)[0]
+    chief, rays = trace_records(optic, field, w, dist)
     xpl = float(np.ravel(optic.paraxial.XPL())[0])
     pos_last = float(np.ravel(optic.surface_group.positions[-1])[0])
     epd = float(np.ravel(optic.paraxial.EPD())[0])
@@ -121,11 +127,11 @@ def expected_opd(surfs, ps, spec, chief, rays, w, impl_xpl=None):
     ap_type, ap_value = spec['aperture']
     mf = max(f[0] for f in spec['fields'])
     q = oracles.abcd_quantities(ps, ap_type, ap_value, spec['field_type'], mf)
-    xpl = q.get('XPL', float('nan'))
+    xpl = float(q.get('XPL', float('nan')))
     xpl_src = 'matrix-optics'
     if impl_xpl is not None and not matrix_optics_applies(spec):
         # aspheric r^2 terms / decentres: "the paraxial exit pupil" is what C04 establishes for optiland.paraxial
-        xpl, xpl_src = impl_xpl, 'implementation (C04)'
+        xpl, xpl_src = float(impl_xpl), 'implementation (C04)'
     pupil = np.array([0.0, 0.0, ps[-1]['z'] + xpl])
     n_pre = [s['n1'] for s in surfs]
     n_img = abs(surfs[-1]['n1'])
@@ -242,22 +248,59 @@ def gen_spec(rng, exotic=True):
         elif r < 0.22 and len(spec['fields']) > 1:
             for f in spec['fields']:
                 f[0] = -f[0]
+    if rng.random() < 0.25:
+        # curved image surface: an off-axis chief ray does not meet it in the vertex plane
+        spec['image_radius'] = rng.uniform(15.0, 80.0) * rng.choice([-1, 1])
     return spec
 
 
+def case_from_data(spec, optic, H, w, dist, data, intensity, fidx=None, dist_name='given', dist_n=None, seed=0):
+    """the record a model / oracle comparison needs, for OPD samples `data` that some analysis reported for
+    field H, wavelength w on the points of `dist` (the two traces are redone here to collect their records)"""
+    H = (float(H[0]), float(H[1]))
+    chief, rays = trace_records(optic, H, w, dist)
+    vx, vy = optic.fields.get_vig_factor(*H)
+    return dict(spec=spec, fidx=fidx, H=H, w=float(w), dist_name=dist_name, dist_n=dist_n or len(dist.x), dist_seed=seed,
+                dist=[(float(a), float(b)) for a, b in zip(dist.x, dist.y)],
+                vx=float(vx), vy=float(vy), data=[float(v) for v in np.ravel(data)],
+                intensity=[float(v) for v in np.ravel(intensity)], chief=chief, rays=rays,
+                xpl=float(np.ravel(optic.paraxial.XPL())[0]), epd=float(np.ravel(optic.paraxial.EPD())[0]),
+                surfs=lensgen.model_surfaces(optic, w), ps=paraxcorr.psurfs(optic),
+                max_field=float(optic.fields.max_field), max_x_field=float(optic.fields.max_x_field),
+                max_y_field=float(optic.fields.max_y_field), infinite=math.isinf(spec['object_thickness']))
+
+
 def make_case(spec, optic, fidx, w, dn, n, seed=0):
-    """run the implementation once and collect what model and oracle need"""
+    """run the implementation once (single field, single wavelength) and collect what model and oracle need"""
+    from optiland.wavefront import Wavefront
     H = optic.fields.get_field_coords()[fidx]
     H = (float(H[0]), float(H[1]))
     dist = make_distribution(dn, n, seed)
-    r = run_wavefront(optic, H, w, dist)
-    vx, vy = optic.fields.get_vig_factor(*H)
-    return dict(spec=spec, fidx=fidx, H=H, w=w, dist_name=dn, dist_n=n, dist_seed=seed,
-                dist=[(float(a), float(b)) for a, b in zip(dist.x, dist.y)],
-                vx=float(vx), vy=float(vy), data=r['data'], intensity=r['intensity'], chief=r['chief'], rays=r['rays'],
-                xpl=r['xpl'], epd=r['epd'], surfs=lensgen.model_surfaces(optic, w), ps=paraxcorr.psurfs(optic),
-                max_field=float(optic.fields.max_field), max_x_field=float(optic.fields.max_x_field),
-                max_y_field=float(optic.fields.max_y_field), infinite=math.isinf(spec['object_thickness']))
+    wf = Wavefront(optic, fields=[H], wavelengths=[w], num_rays=len(dist.x), distribution=dist)
+    return case_from_data(spec, optic, H, w, dist, wf.data[0][0][0], wf.data[0][0][1], fidx=fidx, dist_name=dn,
+                          dist_n=n, seed=seed)
+
+
+def gen_dispersive_spec(rng, curved_image=None):
+    """centred lens of catalogue glasses (so that it has lateral colour), two or three wavelengths in random
+    order with a random primary, at least two fields the largest of which is well off axis, no vignetting
+    factors; half of them with a curved image surface"""
+    spec = gen_spec(rng, exotic=False)
+    for s_ in spec['surfaces']:
+        if isinstance(s_.get('material'), list):
+            s_['material'] = ['glass', rng.choice(lensgen.GLASSES), 'schott']
+        for k in ('dx', 'dy', 'rx', 'ry'):
+            s_.pop(k, None)
+    if not any(isinstance(s_.get('material'), list) for s_ in spec['surfaces']) and len(spec['surfaces']) > 1:
+        spec['surfaces'][0]['material'] = ['glass', rng.choice(lensgen.GLASSES), 'schott']
+    ws = rng.sample([0.4358, 0.4861, 0.5461, 0.5876, 0.6563, 0.7065], rng.choice([2, 3]))
+    pi = rng.randrange(len(ws))
+    spec['wavelengths'] = [[w_, j == pi] for j, w_ in enumerate(ws)]
+    maxf = rng.uniform(4.0, 9.0)
+    spec['fields'] = [[0.0, 0.0, 0.0, 0.0], [0.7 * maxf, 0.0, 0.0, 0.0], [maxf, 0.0, 0.0, 0.0]][rng.choice([0, 1]):]
+    if (rng.random() < 0.5) if curved_image is None else curved_image:
+        spec['image_radius'] = rng.uniform(15.0, 60.0) * rng.choice([-1, 1])
+    return spec
 
 
 def newton_slack(case):
